@@ -122,8 +122,12 @@ End LoopLemmas.
 
 Lemma nt_empty_ok f : next_type (S f) [] = Ok (Some unnamed) [].
 Proof. reflexivity. Qed.
+Lemma kw_nonempty s : is_kw s = false -> (s =? "") = false.
+Proof. unfold is_kw. intros H. destruct (s =? ""); [discriminate H|reflexivity]. Qed.
+Lemma path_nonempty s0 segs : is_kw s0 = false -> path_empty ((s0 :: nil) ++ segs) = false.
+Proof. intros H. cbn [app]. destruct segs; cbn [path_empty]; [apply kw_nonempty; exact H|reflexivity]. Qed.
 Lemma nt_ident f s : is_kw s = false -> next_type (S f) [TId s] = Ok (Some (Ty (CNamed [s]) None None None)) [].
-Proof. intros H. cbn [next_type ref_prefix bind after_ref]. rewrite H. reflexivity. Qed.
+Proof. intros H. cbn [next_type ref_prefix bind after_ref]. rewrite H. cbn [path_loop List.length bind path_empty]. rewrite (kw_nonempty s H). reflexivity. Qed.
 
 Lemma length_colons segs : List.length (colons segs) = 3 * List.length segs.
 Proof. induction segs as [|s segs IH]; [reflexivity|]. cbn [colons flat_map app List.length]. fold (colons segs). rewrite IH. lia. Qed.
@@ -148,7 +152,7 @@ Proof.
   replace ((colons segs ++ match args with [] => [] | _ :: _ => TP PLt :: sep_comma (map lex args) ++ [TP PGt] end) ++ rest) with (colons segs ++ X) by (subst X; rewrite app_assoc; reflexivity).
   rewrite path_loop_ok; [|rewrite app_length, length_colons; lia|].
   2:{ subst X. destruct args; cbn [app]; [apply stop_not_colons; exact Hs|exact I]. }
-  cbn [bind app]. subst X. destruct args as [|a r].
+  cbn [bind]. rewrite (path_nonempty s0 segs Hkw). cbn [app]. subst X. destruct args as [|a r].
   - cbn [app]. destruct rest as [|[s|p|n|dl ts] r]; [reflexivity|cbn in Hs; rewrite Hs; reflexivity| |reflexivity|reflexivity].
     destruct p; try reflexivity. contradiction.
   - cbn [app map]. rewrite sep_comma_cons. rewrite <- !app_assoc. cbn [app].
